@@ -79,6 +79,9 @@ func genDebModelX(r *core.Rand, cext, dext string, straddle bool) (debModel, *c1
 	if r.Chance(1, 3) { // a long unknown field makes the control file span several KiB
 		m.ControlText += "X-Long-Field: " + r.Str("abcdefghijklmnopqrstuvwxyz0123456789 ", r.Range(2000, 9000)) + "x\n"
 	}
+	if !straddle && r.Chance(1, 10) { // a control file well beyond 64 KiB, with a field after the long one
+		m.ControlText += "X-Very-Long-Field: " + r.Str("abcdefghijklmnopqrstuvwxyz0123456789 ", r.Range(70000, 300000)) + "x\nX-After: " + r.Str("abcdef", 6) + "\n"
+	}
 	m.ControlFiles = genControlFiles(r, m.ControlText)
 	if straddle {
 		// exactly [md5sums, ./control] with ./control crossing a 32 KiB multiple of the tar stream
